@@ -7,6 +7,7 @@ use std::io::Write;
 use std::panic;
 
 mod cases;
+mod ext;
 
 fn main() {
     let args: Vec<String> = std::env::args().collect();
